@@ -55,6 +55,129 @@ FAILING = {
 }
 
 
+# ---- error class "soil texture not in the parameter tables" in several spellings (C11) ----
+_TXT2 = ["%s 0.90 %s 03 3 00 10      00 13 02   22 09 38 73 21 06 00  20   00 99 01",
+         "%s 0.30 %s 20 3 00 10      00         22 12 43 61 27 12 00  20   00       "]
+_TXT1 = "%s 1.14 %s 03 2 00 10      00 03 01   31 16 45 26 63 11 00  20   00 99 01"
+_CSV2 = ["%s,1.14,%s,03,2,1.36,00,10,00,05,02,31,16,45,26,63,11,20,00,99",
+         "%s,0.40,%s,20,2,1.4,00,10,00,,,29,19,45,26,63,11,20,00,   "]
+_TXL = "project=ttx WeatherFolder=historical fcode=109_120 Altitude=73 Latitude=52.6732 poligonID=29872 EndDate=12311981 plotNr=10001 soilId=%s"
+_TCL = "project=tcs WeatherFolder=historical fcode=109_120 Altitude=73 Latitude=52.6732 poligonID=29872 EndDate=12311981 plotNr=10001 soilId=%s"
+# name -> (project, soil id, raw codes of the horizons top to bottom); fixed ids so that the batch lines are static
+TEXTURE_NAMED = {
+    "texture-right-aligned":        ("ttx", "901", [" SU", "SL4"]),
+    "texture-right-aligned-deep":   ("ttx", "902", ["SL2", " SU"]),
+    "texture-blank-deep":           ("ttx", "903", ["SL2", "   "]),
+    "texture-table-header-key":     ("ttx", "904", ["BDA", "SL4"]),
+    "texture-truncated-deep":       ("ttx", "906", ["SL2", "SL "]),
+    "texture-right-aligned-single": ("ttx", "907", [" SS"]),
+    "texture-csv-leading-blank":    ("tcs", "911", [" SU", "ULS"]),
+    "texture-csv-too-long":         ("tcs", "912", ["SL2x", "ULS"]),
+    "texture-csv-empty-deep":       ("tcs", "913", ["ULS", ""]),
+    "texture-csv-leading-blank-deep": ("tcs", "916", ["ULS", " SL2"[:3]]),
+}
+TEXTURE_VALID_NAMED = {      # spellings the code accepts (normalised to a table key): valid lines
+    "tx-lowercase":      ("ttx", "905", ["sl2", "Sl4"]),
+    "tx-csv-short":      ("tcs", "914", ["SU", "ULS"]),
+    "tx-csv-lower-deep": ("tcs", "915", ["ULS", "su"]),
+}
+TEXTURE_FAILING = {k: (_TXL if v[0] == "ttx" else _TCL) % v[1] for k, v in TEXTURE_NAMED.items()}
+TEXTURE_VALID = {k: (_TXL if v[0] == "ttx" else _TCL) % v[1] for k, v in TEXTURE_VALID_NAMED.items()}
+
+
+def table_keys(ex):
+    keys = []
+    for i, l in enumerate(open(os.path.join(ex, "parameter", "PARCAP.TRU")).read().split("\n")):
+        if i % 2 == 0 and len(l) >= 3 and l[:3].strip():
+            keys.append(l[:3].upper())
+    return keys
+
+
+def _mutate(rng, k, csv):
+    alnum = "ABCDEFGHIJKLMNOPQRSTUVWXYZabcdefghijklmnopqrstuvwxyz0123456789"
+    m = rng.randint(0, 8 if csv else 5)
+    if m == 0:
+        return k.lower()
+    if m == 1:
+        i = rng.randrange(3); return k[:i] + k[i].lower() + k[i + 1:]
+    if m == 2:
+        return " " + k[:2]
+    if m == 3:
+        i = rng.randrange(3); return k[:i] + rng.choice(alnum) + k[i + 1:]
+    if m == 4:
+        return k[1] + k[0] + k[2]
+    if m == 5:
+        return k
+    if m == 6:
+        return k.rstrip()                    # csv: unpadded
+    if m == 7:
+        return k.rstrip() + rng.choice(alnum + " ")
+    return " " + k.rstrip()
+
+
+def make_texture_inputs(ex, rng, nrandom):
+    """projects ttx (txt soil file, clone of ex1) and tcs (csv soil file, clone of bulk) with one soil id per
+    spelling; returns the cases [{name, project, sid, raws, line}] (named ones first)"""
+    keys = table_keys(ex)
+    cases = []
+    for name, (proj, sid, raws) in list(TEXTURE_NAMED.items()) + list(TEXTURE_VALID_NAMED.items()):
+        cases.append({"name": name, "project": proj, "sid": sid, "raws": raws})
+    fixed_txt = ["QQ9", "XXX", " SS", "su ", "S U", "SU ", "SS ", "TS3", "UU ", "  S", "ss ", "Ts3", "0SU", "SL2", keys[-1], keys[0]]
+    fixed_csv = ["SL2", "sl2", "SU ", "S", "QQ9", " sl", "SL2 ", "ss", "  SU", "SS  ", "UU", "uu ", "U", "SU\t", keys[-1].rstrip()]
+    n = 0
+    def sid():
+        nonlocal n
+        n += 1
+        return "%03d" % (100 + n)            # ids 101.. (no clash with the shipped ids used by the lines above)
+    for c in fixed_txt:
+        for deep in (False, True):
+            cases.append({"name": "txt:%r:%s" % (c, "deep" if deep else "top"), "project": "ttx", "sid": None,
+                          "raws": ["SL2", c] if deep else [c, "SL4"]})
+    for c in fixed_txt[:6]:
+        cases.append({"name": "txt:%r:single" % c, "project": "ttx", "sid": None, "raws": [c]})
+    for c in fixed_csv:
+        for deep in (False, True):
+            cases.append({"name": "csv:%r:%s" % (c, "deep" if deep else "top"), "project": "tcs", "sid": None,
+                          "raws": ["ULS", c] if deep else [c, "ULS"]})
+    for _ in range(nrandom):
+        csv = rng.random() < 0.5
+        c = _mutate(rng, rng.choice(keys), csv)
+        if not csv:
+            c = (c + "   ")[:3]
+        deep = rng.random() < 0.5
+        other = rng.choice(keys) if csv else rng.choice(keys)
+        cases.append({"name": "%s:%r:%s:random" % ("csv" if csv else "txt", c, "deep" if deep else "top"),
+                      "project": "tcs" if csv else "ttx", "sid": None,
+                      "raws": [other.rstrip() if csv else other, c] if deep else [c, other.rstrip() if csv else other]})
+    used = {c["sid"] for c in cases if c["sid"]}
+    for c in cases:
+        if c["sid"] is None:
+            s = sid()
+            while s in used:
+                s = sid()
+            c["sid"] = s
+    # write the projects
+    d = _clone(ex, "ex1", "ttx")
+    with open(d + "/soil_ttx.txt", "a") as f:
+        for c in cases:
+            if c["project"] != "ttx":
+                continue
+            if len(c["raws"]) == 1:
+                f.write((_TXT1 % (c["sid"], c["raws"][0])) + "\n")
+            else:
+                for tpl, code in zip(_TXT2, c["raws"]):
+                    f.write((tpl % (c["sid"], code)) + "\n")
+    d = _clone(ex, "bulk", "tcs")
+    with open(d + "/soil_tcs.csv", "a") as f:
+        for c in cases:
+            if c["project"] == "tcs":
+                for tpl, code in zip(_CSV2, c["raws"]):
+                    f.write((tpl % (c["sid"], code)) + "\n")
+    for c in cases:
+        c["line"] = (_TXL if c["project"] == "ttx" else _TCL) % c["sid"]
+    return cases
+
+
 def setup_examples(ctx, name="ex"):
     """private copy of REPO/examples (results are written inside the tree; never into REPO)"""
     ex = os.path.join(ctx.work, name)
